@@ -65,7 +65,7 @@ theorem ofMeanGen_toMeanGen (m : MeanGen) : ofMeanGen (toMeanGen m) = m := by
 theorem toMeanGen_ofMeanGen (m : G.MeanDrawdownGenerator) : toMeanGen (ofMeanGen m) = m := by
   cases m with | mk c x => cases x <;> rfl
 
-/-! ## Vocabulary -/
+/-! ## Vocabulary (the translator's fixed prelude, which is not part of any group's simp set) -/
 
 theorem checked_div_agrees (a b : Rat) : Generated.Machines.Decimal.checked_div a b = checkedDiv a b := rfl
 
@@ -73,70 +73,79 @@ theorem abs_agrees (x : Rat) : Generated.Machines.Decimal.abs x = x.abs := by
   unfold Generated.Machines.Decimal.abs
   grind [Rat.abs]
 
-theorem duration_agrees (d : Drawdown) : d.duration = (toDd d).duration := rfl
+/-! ## Shape-independent proofs
+
+Every proof below takes the state records apart (`rcases`: case analysis on the DATA), unfolds *everything generated
+for the group* (`gen_drawdown`: the listed functions, the instances of the generic `calculate_mean` and whatever
+auxiliary functions the translator found by lookup, under whatever names) together with the model's definitions and
+the record maps, and lets `grind` decide the remaining case distinctions (comparisons of rationals, the constructors
+of `Option`). Nothing depends on the names of helper functions or on how the source spells a decision (`if`/`else`,
+early `return`, `match` with guards, `then_some`, flipped comparisons, hoisted or renamed locals, `take()` vs. a match
+on `&self.max`). -/
+
+open Lean.Parser.Tactic in
+/-- everything generated for the group, the model's definitions and the record maps -/
+local macro "unfold_dd" loc:(location)? : tactic => `(tactic|
+  simp only [gen_drawdown, Gen.init, Gen.generate, Gen.update, MaxGen.update, MaxGen.generate, MeanGen.update,
+    MeanGen.generate, welfordMean, welfordMeanInt, BarterModel.Drawdown.Drawdown.duration, toTimed, ofTimed, toDd, ofDd,
+    toGen, ofGen, toMaxGen, ofMaxGen, toMean, ofMean, toMeanGen, ofMeanGen, checked_div_agrees, abs_agrees,
+    Option.map] $[$loc]?)
+
+/-- unfold both sides, then case analysis on the data -/
+local macro "dd_agree" : tactic => `(tactic| first | rfl | (unfold_dd; done) | (unfold_dd; grind))
+
+theorem duration_agrees (d : Drawdown) : d.duration = (toDd d).duration := by dd_agree
 
 theorem calculate_mean_decimal_agrees (prev next count : Rat) :
-    Generated.Machines.welford_online.calculate_mean_Decimal prev next count = welfordMean prev next count := by
-  simp only [Generated.Machines.welford_online.calculate_mean_Decimal, welfordMean]
+    Generated.Machines.welford_online.calculate_mean_Decimal prev next count = welfordMean prev next count := by dd_agree
 
 theorem calculate_mean_i64_agrees (prev next count : Int) :
-    Generated.Machines.welford_online.calculate_mean_i64 prev next count = welfordMeanInt prev next count := by
-  simp only [Generated.Machines.welford_online.calculate_mean_i64, welfordMeanInt]
+    Generated.Machines.welford_online.calculate_mean_i64 prev next count = welfordMeanInt prev next count := by dd_agree
 
 /-! ## `DrawdownGenerator` -/
 
-theorem init_agrees (p : Pt) : Gen.init p = ofGen (Generated.Machines.DrawdownGenerator.init (toTimed p)) := rfl
+theorem init_agrees (p : Pt) : Gen.init p = ofGen (Generated.Machines.DrawdownGenerator.init (toTimed p)) := by dd_agree
 
 /-- `generate(&mut self)` does not change the state and returns the model's value. -/
 theorem generate_agrees (g : Gen) :
     ((toGen g).generate).1 = toGen g ∧ g.generate = ((toGen g).generate).2.map ofDd := by
-  rcases g with ⟨peak, dmax, tpeak, tnow⟩
-  simp only [Gen.generate, Generated.Machines.DrawdownGenerator.generate, toGen]
-  cases tpeak <;> grind [ofDd]
+  rcases g with ⟨peak, dmax, _ | tpeak, tnow⟩ <;> dd_agree
 
 theorem update_agrees (g : Gen) (p : Pt) :
     g.update p = (ofGen ((toGen g).update (toTimed p)).1, ((toGen g).update (toTimed p)).2.map ofDd) := by
-  rcases g with ⟨peak, dmax, tpeak, tnow⟩
-  simp only [Gen.update, Generated.Machines.DrawdownGenerator.update, Gen.generate,
-    Generated.Machines.DrawdownGenerator.generate, toGen, toTimed, checked_div_agrees]
-  cases peak with
-  | none => simp [ofGen]
-  | some pk =>
-    cases tpeak <;> cases h : checkedDiv (pk - p.v) pk <;> simp [ofGen] <;> split <;> simp_all <;> grind [ofDd, ofGen]
+  rcases p with ⟨t, v⟩
+  rcases g with ⟨_ | peak, dmax, _ | tpeak, tnow⟩ <;> dd_agree
 
 /-! ## `MaxDrawdownGenerator` -/
 
 /-- `MaxDrawdownGenerator::init(d)` is the model state holding `d`. -/
 theorem max_init_agrees (d : Drawdown) :
-    (⟨some d⟩ : MaxGen) = ofMaxGen (Generated.Machines.MaxDrawdownGenerator.init (toDd d)) := rfl
+    (⟨some d⟩ : MaxGen) = ofMaxGen (Generated.Machines.MaxDrawdownGenerator.init (toDd d)) := by dd_agree
 
 theorem max_update_agrees (m : MaxGen) (d : Drawdown) :
     m.update d = ofMaxGen ((toMaxGen m).update (toDd d)) := by
-  rcases m with ⟨_ | cur⟩ <;>
-    simp [MaxGen.update, Generated.Machines.MaxDrawdownGenerator.update, toMaxGen, ofMaxGen, abs_agrees,
-      ofDd_toDd, toDd_value] <;>
-    split <;> simp_all [ofDd_toDd]
+  rcases d with ⟨v, ts, te⟩
+  rcases m with ⟨_ | ⟨cv, cts, cte⟩⟩ <;> dd_agree
 
 theorem max_generate_agrees (m : MaxGen) :
     m.generate = ((toMaxGen m).generate).map fun x => ofDd x.f0 := by
-  rcases m with ⟨_ | cur⟩ <;> rfl
+  rcases m with ⟨_ | ⟨cv, cts, cte⟩⟩ <;> dd_agree
 
 /-! ## `MeanDrawdownGenerator` -/
 
 /-- `MeanDrawdownGenerator::init(d)`: count 1, mean = `d` itself. -/
 theorem mean_init_agrees (d : Drawdown) :
-    (⟨1, some ⟨d.value, d.duration⟩⟩ : MeanGen) = ofMeanGen (Generated.Machines.MeanDrawdownGenerator.init (toDd d)) := rfl
+    (⟨1, some ⟨d.value, d.duration⟩⟩ : MeanGen) = ofMeanGen (Generated.Machines.MeanDrawdownGenerator.init (toDd d)) := by
+  dd_agree
 
 theorem mean_update_agrees (m : MeanGen) (d : Drawdown) :
     m.update d = ofMeanGen ((toMeanGen m).update (toDd d)) := by
-  rcases m with ⟨c, _ | ⟨md, ms⟩⟩ <;>
-    simp only [MeanGen.update, Generated.Machines.MeanDrawdownGenerator.update, toMeanGen, ofMeanGen, toMean,
-      calculate_mean_decimal_agrees, calculate_mean_i64_agrees, duration_agrees, Option.map] <;>
-    simp [ofMean, toDd_value]
+  rcases d with ⟨v, ts, te⟩
+  rcases m with ⟨c, _ | ⟨md, ms⟩⟩ <;> dd_agree
 
 theorem mean_generate_agrees (m : MeanGen) :
     m.generate = ((toMeanGen m).generate).map ofMean := by
-  rcases m with ⟨c, _ | x⟩ <;> rfl
+  rcases m with ⟨c, _ | ⟨md, ms⟩⟩ <;> dd_agree
 
 /-! ## Everything at once (re-exported as `Props.C18.kernels_agree_with_source`) -/
 
